@@ -56,3 +56,18 @@ Definition inventory_ok_b : bool :=
   reads residue_identity_reads "group.py" "Group.__eq__" "label" && negb (reads residue_identity_reads "group.py" "Group.__eq__" "icode") &&
   reads residue_identity_reads "iterative.py" "Iterative.__eq__" "label".
 Lemma inventory_ok : inventory_ok_b = true. Proof. vm_compute. reflexivity. Qed.
+
+(* ---- the atom sorting key of ConformationContainer.sort_atoms_key: ord(chain) * UNICODE_MULTIPLIER + res_num * RESIDUE_MULTIPLIER + ord(c) ---- *)
+Fixpoint zlookup (k : string) (l : list (string * Z)) : Z := match l with [] => 0%Z | (k', v) :: r => if String.eqb k k' then v else zlookup k r end.
+Definition UM : Z := zlookup "UNICODE_MULTIPLIER" sort_key_constants.
+Definition RM : Z := zlookup "RESIDUE_MULTIPLIER" sort_key_constants.
+Lemma sort_constants : UM = 10000000%Z /\ RM = 1000%Z. Proof. split; vm_compute; reflexivity. Qed.
+Definition sort_key (chain num c : Z) : Z := (chain * UM + num * RM + c)%Z.
+(* with character codes below 1000 and residue numbers of the two atoms at most 9999 apart (e.g. all numbers in 0..9999, or in -999..9000)
+   the key orders atoms lexicographically by (chain, number, character): order-preserving relabellings inside such a range keep the atom order *)
+Theorem sort_key_lexicographic ch1 n1 c1 ch2 n2 c2 : (0 <= c1 < 1000)%Z -> (0 <= c2 < 1000)%Z -> (Z.abs (n1 - n2) <= 9999)%Z ->
+  ((sort_key ch1 n1 c1 < sort_key ch2 n2 c2)%Z <-> (ch1 < ch2 \/ (ch1 = ch2 /\ (n1 < n2 \/ (n1 = n2 /\ c1 < c2))))%Z).
+Proof. unfold sort_key. destruct sort_constants as [-> ->]. lia. Qed.
+(* outside that range chains interleave: chain 65 residue 9999 sorts AFTER chain 66 residue -999 *)
+Theorem sort_key_overlap_refuted : (sort_key 66 (-999) 0 < sort_key 65 9999 0)%Z.
+Proof. unfold sort_key. destruct sort_constants as [-> ->]. lia. Qed.
